@@ -62,7 +62,7 @@ package listoffsets
 //@   requires r != nil && len(r.Topics) >= 1 && len(r.Topics[0].Partitions) >= 1
 //@   ensures result1 == nil
 //@   ensures (exists q int :: haskey(cluster.Topics[r.Topics[0].Topic].Partitions, q) && cluster.Topics[r.Topics[0].Topic].Partitions[q].ID == r.Topics[0].Partitions[0].Partition && result0.ID == cluster.Brokers[cluster.Topics[r.Topics[0].Topic].Partitions[q].Leader].ID && result0.Port == cluster.Brokers[cluster.Topics[r.Topics[0].Topic].Partitions[q].Leader].Port && same(result0.Host, cluster.Brokers[cluster.Topics[r.Topics[0].Topic].Partitions[q].Leader].Host)) || (result0.ID == -1 && len(result0.Host) == 0 && (forall q int :: haskey(cluster.Topics[r.Topics[0].Topic].Partitions, q) ==> cluster.Topics[r.Topics[0].Topic].Partitions[q].ID != r.Topics[0].Partitions[0].Partition))
-//@   loop 0 invariant forall q int :: visited(q) ==> cluster.Topics[topic].Partitions[q].ID != partition
+//@   loop 0 invariant forall q int :: visited(q) ==> cluster.Topics[r.Topics[0].Topic].Partitions[q].ID != r.Topics[0].Partitions[0].Partition
 
 //@ property C19
 // Split (C19): every per-partition sub-request carries the ReplicaID and the IsolationLevel of the request it was split
